@@ -181,7 +181,8 @@ impl Scenario for C03Key {
                     }
                     2 => {
                         if !s.labels.is_empty() {
-                            let j = r.below(s.labels.len() as u64) as usize;
+                            // (for very long label lists mostly the last one: index arithmetic wraps there)
+                            let j = if s.labels.len() > 200 && r.chance(600) { s.labels.len() - 1 } else { r.below(s.labels.len() as u64) as usize };
                             s.labels[j].1 = r.below(LVALS.len() as u64) as usize;
                         }
                     }
@@ -193,7 +194,7 @@ impl Scenario for C03Key {
                 keys.push(s);
                 continue;
             }
-            let n = *r.pick(&[0usize, 1, 2, 2, 2, 3, 3, 4, 7, 8, 9, 16, 21, 24, 33, 48]);
+            let n = if r.chance(25) { *r.pick(&[255usize, 256, 257, 258, 300]) } else { *r.pick(&[0usize, 1, 2, 2, 2, 3, 3, 4, 7, 8, 9, 16, 21, 24, 33, 48]) };
             let distinct = r.chance(400);
             let mut labels = vec![];
             for j in 0..n {
